@@ -31,6 +31,8 @@ func checkC19(c *Ctx, r *Report) {
 	r.rule("C19.R4.splitdomainname-gate", 1, "SplitDomainName decides whether the final dot is the root label with IsFqdn(s)")
 	fqdnDecidedByIsFqdn(c, r, "C19.R4.splitdomainname-gate", c.ssaFunc("SplitDomainName"), "SplitDomainName", "a fully qualified name whose last label ends in an escaped backslash keeps the root dot in that label: the labels disagree with IsFqdn / Fqdn and with the wire labels")
 	noCaseChange(c, r, "C19.R4.trim-keeps-case")
+	symmetricTests(c, r, "C19.R2.symmetric-tests", []string{"CompareDomainName", "equal"})
+	dotRemovedBehindIsFqdn(c, r, "C19.R4.dot-removed-behind-isfqdn")
 }
 
 // c19Scan: R1.
